@@ -35,14 +35,14 @@ def gen_tree(g, depth, maxdepth, root=False):
 def walk(node, path=()):
     yield path, node
     for fname, ch in node.children:
-        yield from walk(ch, path + (fname,))
+        yield from walk(ch, path + (str(fname),))
 
 
 def type_defs(node, derive="#[derive(Clone, Debug, PartialEq, Default)]"):
     out = []
     for path, n in walk(node):
         if n.tuple:
-            out.append(f"{derive}\npub struct {n.ty}(" + ", ".join(f"pub {l['ty']}" for l in n.leaves) + ");")
+            out.append(f"{derive}\npub struct {n.ty}(" + ", ".join([f"pub {l['ty']}" for l in n.leaves] + [f"pub {ch.ty}" for _, ch in n.children]) + ");")
             continue
         fs = [f"pub {l['name']}: {l['ty']}," for l in n.leaves] + [f"pub {fn}: {ch.ty}," for fn, ch in n.children]
         out.append(f"{derive}\npub struct {n.ty} {{ " + " ".join(fs) + " }")
@@ -53,7 +53,7 @@ def tree_value(node, leaf_expr):
     """Rust expression constructing the tree; leaf_expr(path, leaf) -> expr"""
     def rec(n, path):
         if n.tuple:
-            return f"{n.ty}(" + ", ".join(leaf_expr(path, l) for l in n.leaves) + ")"
+            return f"{n.ty}(" + ", ".join([leaf_expr(path, l) for l in n.leaves] + [rec(ch, path + (str(fn),)) for fn, ch in n.children]) + ")"
         fs = [f"{l['name']}: {leaf_expr(path, l)}," for l in n.leaves] + [f"{fn}: {rec(ch, path + (fn,))}," for fn, ch in n.children]
         return f"{n.ty} {{ " + " ".join(fs) + " }"
     return rec(node, ())
@@ -288,10 +288,27 @@ def gen_parent_case(g, cid, opts=None):
         fc.parents.append((f"p{g.mark()}", tree))
     # flat counterpart: one field per leaf; renamed ones use [map(x)]
     fc.tfields = [dict(name=o["name"], ty=o["ty"]) for o in fc.own]
+    fc.flags = set()
     for pname, tree in fc.parents:
+        # a flattened value without further nesting may be a tuple struct: its members are addressed by index, have to name the counterpart's
+        # field, and are listed in ascending index order (nested tuple structs inside a field-named deriving struct are outside what o2o renders)
+        if not tree.children and g.chance(0.45):
+            for path, n in walk(tree):
+                n.tuple = True
+                for i, l in enumerate(n.leaves):
+                    l["name"] = i
+                n.children = [(len(n.leaves) + j, ch) for j, (_, ch) in enumerate(n.children)]
+            cands = [n for _, n in walk(tree) if len(n.leaves) >= 2]
+            if cands and g.chance(0.2):
+                # entries written in another order than the members' indices (same-typed, so that everything still compiles)
+                n = r.choice(cands)
+                n.permuted = True
+                for l in n.leaves:
+                    l["ty"] = "i32"
+                fc.flags.add("parent_tuple_permuted")
         for path, n in walk(tree):
             for l in n.leaves:
-                l["tname"] = l["name"] if g.chance(0.6) else f"m{g.mark()}"
+                l["tname"] = l["name"] if (g.chance(0.6) and not n.tuple) else f"m{g.mark()}"
                 fc.tfields.append(dict(name=l["tname"], ty=l["ty"]))
     r.shuffle(fc.tfields)
     fc.depth = max(len(p) for _, t in fc.parents for p, _ in walk(t))
@@ -314,6 +331,14 @@ def parent_args(g, node, typed):
             ents.append(l["name"])
     for fn, ch in node.children:
         ents.append(f"[parent({parent_args(g, ch, typed)})] {fn}" + (f": {ch.ty}" if typed else ""))
+    if node.tuple:
+        if getattr(node, "permuted", False):
+            k = len(node.leaves)
+            head = ents[:k]
+            while head == ents[:k]:
+                r.shuffle(head)
+            ents[:k] = head
+        return ", ".join(ents)
     r.shuffle(ents)
     # a single bare identifier would be read as a dedicated type: keep a bracketed entry first in that case
     if len(ents) == 1 and not ents[0].startswith("["):
@@ -363,7 +388,7 @@ def render_parent_module(fc, g, fallible, draws):
     for pname, tree in fc.parents:
         for path, n in walk(tree):
             for l in n.leaves:
-                tv[l["tname"]] = "s." + ".".join((pname,) + path + (l["name"],))
+                tv[l["tname"]] = "s." + ".".join((pname,) + path + (str(l["name"]),))
     tbody = "T { " + " ".join(t["name"] + ": " + tv[t["name"]] + "," for t in fc.tfields) + " }"
     L.append(f"fn ref_into(s: &S, pre: &T) -> {'Result<T, super::Er>' if fallible else 'T'} {{ {wrap(tbody)} }}")
     tag = f"c{fc.cid}{'f' if fallible else 'i'}"
@@ -402,6 +427,8 @@ def gen_bare_case(g, cid, opts=None):
     fc.depth, fc.branching, fc.perm = 1, len(fc.inners), "n/a"
     # one leaf of the first inner type runs a fallible check in its Into expression (`chk(~, id)?`): when it fires, every fallible
     # Into / IntoExisting flavour of the *outer* struct has to surface that error
+    # the deriving struct may be a tuple struct mapped to the field-named counterpart through `as {}` and #[map(name)] on its own members
+    fc.s_tuple = g.chance(0.3)
     fc.chk = None
     if g.chance(0.5):
         l = fc.inners[0]["leaves"][0]
@@ -433,7 +460,8 @@ def render_bare_module(fc, g, fallible, draws):
         src = bi.render(derive="#[derive(Clone, Debug, PartialEq, Default, o2o::o2o)]")
         inputs.append(src)
         L.append(src)
-    it = Item("struct", "S", shape="named", vis="pub ")
+    st = getattr(fc, "s_tuple", False)
+    it = Item("struct", "S", shape="tuple" if st else "named", vis="pub ")
     names = []
     todo = set(KINDS)
     shorts = list(TRAIT_SHORT.items())
@@ -445,30 +473,34 @@ def render_bare_module(fc, g, fallible, draws):
     names += sorted(todo)
     r.shuffle(names)
     for nm in names:
-        it.attrs.append(Instr(f(nm), "trait", ty="T", hint=None, err=err, params=[]))
-    flds = [Field(o["name"], o["ty"]) for o in fc.own] + [Field(b["fname"], b["ty"], [Instr("parent", "parent", container=None, fields=None)]) for b in fc.inners]
+        it.attrs.append(Instr(f(nm), "trait", ty="T", hint=("{}" if st else None), err=err, params=[]))
+    flds = [Field(o["name"], o["ty"], [Instr("map", "map", container=None, member=o["name"], action=None)] if st else []) for o in fc.own] + [Field(b["fname"], b["ty"], [Instr("parent", "parent", container=None, fields=None)]) for b in fc.inners]
     import random as _random
     _random.Random(fc.cid).shuffle(flds)
     it.fields = flds
+    # field name -> how the reference functions and the driver address it
+    acc = {fl.name: (str(i) if st else fl.name) for i, fl in enumerate(flds)}
     derive_src = it.render(derive="#[derive(Clone, Debug, PartialEq, o2o::o2o)]")
     L += [derive_src, ""]
     wrap = (lambda e: f"Ok::<_, super::Er>({e})") if fallible else (lambda e: e)
     sv = []
+    lbl = (lambda n: "") if st else (lambda n: f"{n}: ")
     for fl in it.fields:
         b = next((x for x in fc.inners if x["fname"] == fl.name), None)
         if b is None:
-            sv.append(f"{fl.name}: t.{fl.name},")
+            sv.append(f"{lbl(fl.name)}t.{fl.name},")
         else:
-            sv.append(f"{fl.name}: {b['ty']} {{ " + " ".join(f"{l['name']}: t.{l['name']}.wrapping_add({l['k'] % 50 + 1})," for l in b["leaves"]) + " },")
-    L.append(f"fn ref_from(t: &T) -> {'Result<S, super::Er>' if fallible else 'S'} {{ {wrap('S { ' + ' '.join(sv) + ' }')} }}")
+            sv.append(f"{lbl(fl.name)}{b['ty']} {{ " + " ".join(f"{l['name']}: t.{l['name']}.wrapping_add({l['k'] % 50 + 1})," for l in b["leaves"]) + " },")
+    sctor = (lambda parts: "S(" + " ".join(parts) + ")") if st else (lambda parts: "S { " + " ".join(parts) + " }")
+    L.append(f"fn ref_from(t: &T) -> {'Result<S, super::Er>' if fallible else 'S'} {{ {wrap(sctor(sv))} }}")
 
     def tvals(existing):
-        v = [(f"{o['name']}: s.{o['name']}," if not (fc.overlap and fc.overlap["field"] == o["name"]) else f"{o['name']}: {fc.overlap['k']},") for o in fc.own]
+        v = [(f"{o['name']}: s.{acc[o['name']]}," if not (fc.overlap and fc.overlap["field"] == o["name"]) else f"{o['name']}: {fc.overlap['k']},") for o in fc.own]
         for b in fc.inners:
-            v += [f"{l['name']}: s.{b['fname']}.{l['name']}.wrapping_sub({l['k'] % 50 + 1})," for l in b["leaves"]]
+            v += [f"{l['name']}: s.{acc[b['fname']]}.{l['name']}.wrapping_sub({l['k'] % 50 + 1})," for l in b["leaves"]]
         v += [(f"{e['name']}: pre.{e['name']}," if existing else f"{e['name']}: Default::default(),") for e in fc.extra]
         return "T { " + " ".join(v) + " }"
-    chk_path = f"s.{fc.inners[0]['fname']}.{fc.inners[0]['leaves'][0]['name']}" if fc.chk is not None else None
+    chk_path = f"s.{acc[fc.inners[0]['fname']]}.{fc.inners[0]['leaves'][0]['name']}" if fc.chk is not None else None
     guard = f"if {chk_path} % 5 == 0 {{ return Err(super::Er({fc.chk})); }} " if (fallible and fc.chk is not None) else ""
     L.append(f"fn ref_into(s: &S, pre: &T) -> {'Result<T, super::Er>' if fallible else 'T'} {{ {guard}{wrap(tvals(False))} }}")
     L.append(f"fn ref_existing(s: &S, pre: &T) -> {'Result<T, super::Er>' if fallible else 'T'} {{ {guard}{wrap(tvals(True))} }}")
@@ -479,8 +511,8 @@ def render_bare_module(fc, g, fallible, draws):
     svv = []
     for fl in it.fields:
         b = next((x for x in fc.inners if x["fname"] == fl.name), None)
-        svv.append(f"{fl.name}: {rng_call(fl.ty)}," if b is None else f"{fl.name}: {b['ty']} {{ " + " ".join(f"{l['name']}: {rng_call(l['ty'])}," for l in b["leaves"]) + " },")
-    D.append("        let s: S = S { " + " ".join(svv) + " };")
+        svv.append(f"{lbl(fl.name)}{rng_call(fl.ty)}," if b is None else f"{lbl(fl.name)}{b['ty']} {{ " + " ".join(f"{l['name']}: {rng_call(l['ty'])}," for l in b["leaves"]) + " },")
+    D.append("        let s: S = " + sctor(svv) + ";")
     if fc.chk is not None:
         D.append(f"        let mut s = s; if d % 3 == 0 {{ {chk_path} = ({chk_path} / 5).wrapping_mul(5); }}")
         if fallible:
